@@ -14,12 +14,15 @@ pub struct Ctx {
     prefix: Vec<u32>,
     pub choices: Vec<u32>,
     pub arities: Vec<u32>,
+    /// deviation class of every choice point: 0 = primary (bounded by `bound`), 1 = secondary (bounded by `bound2`)
+    pub classes: Vec<u8>,
+    cur_class: u8,
     pub rejected: bool,
 }
 
 impl Ctx {
     pub fn replay(prefix: &[u32]) -> Ctx {
-        Ctx { prefix: prefix.to_vec(), choices: Vec::new(), arities: Vec::new(), rejected: false }
+        Ctx { prefix: prefix.to_vec(), choices: Vec::new(), arities: Vec::new(), classes: Vec::new(), cur_class: 0, rejected: false }
     }
     /// One decision point with `n` answers (n >= 1). Replays the prefix, then answers 0.
     pub fn choose(&mut self, n: usize) -> usize {
@@ -38,7 +41,12 @@ impl Ctx {
         };
         self.choices.push(c);
         self.arities.push(n as u32);
+        self.classes.push(self.cur_class);
         c as usize
+    }
+    /// choice points made from now on belong to deviation class `c` (0 primary, 1 secondary)
+    pub fn set_class(&mut self, c: u8) {
+        self.cur_class = c;
     }
     pub fn flag(&mut self) -> bool {
         self.choose(2) == 1
@@ -109,6 +117,15 @@ where
     G: Fn(&mut Ctx) -> Option<T> + Sync,
     V: Fn(&[u32], T) + Sync,
 {
+    explore2(gen, bound, None, caps, visit)
+}
+
+/// Two deviation classes: at most `bound` non-default primary choices and at most `bound2` non-default secondary ones.
+pub fn explore2<T, G, V>(gen: G, bound: Option<usize>, bound2: Option<usize>, caps: &Caps, visit: V) -> ExploreStats
+where
+    G: Fn(&mut Ctx) -> Option<T> + Sync,
+    V: Fn(&[u32], T) + Sync,
+{
     let queue: Mutex<VecDeque<Vec<u32>>> = Mutex::new(VecDeque::from(vec![vec![]]));
     let cv = Condvar::new();
     let active = AtomicUsize::new(0);
@@ -121,7 +138,7 @@ where
 
     // process one prefix: run, visit, then either push children to the shared queue or recurse locally
     fn run_item<T, G, V>(
-        prefix: Vec<u32>, gen: &G, bound: Option<usize>, visit: &V, caps: &Caps, capped: &AtomicBool,
+        prefix: Vec<u32>, gen: &G, bound: Option<usize>, bound2: Option<usize>, visit: &V, caps: &Caps, capped: &AtomicBool,
         leaves: &AtomicU64, pruned: &AtomicU64, transitions: &AtomicU64, max_depth: &AtomicUsize,
         queue: &Mutex<VecDeque<Vec<u32>>>, cv: &Condvar, local_depth: usize,
     ) where
@@ -149,14 +166,18 @@ where
                 pruned.fetch_add(1, Ordering::Relaxed);
             }
         }
-        let devs_prefix = prefix.iter().filter(|c| **c != 0).count();
+        let devs_prefix = [
+            (0..prefix.len()).filter(|i| ctx.choices[*i] != 0 && ctx.classes[*i] == 0).count(),
+            (0..prefix.len()).filter(|i| ctx.choices[*i] != 0 && ctx.classes[*i] != 0).count(),
+        ];
         // zeros between prefix end and i do not add deviations
         let mut children: Vec<Vec<u32>> = Vec::new();
         for i in prefix.len()..ctx.choices.len() {
             let ar = ctx.arities[i];
             transitions.fetch_add(ar as u64, Ordering::Relaxed);
-            if let Some(b) = bound {
-                if devs_prefix + 1 > b {
+            let cl = if ctx.classes[i] == 0 { 0 } else { 1 };
+            if let Some(b) = if cl == 0 { bound } else { bound2 } {
+                if devs_prefix[cl] + 1 > b {
                     continue;
                 }
             }
@@ -179,7 +200,7 @@ where
             cv.notify_all();
         } else {
             for c in children {
-                run_item(c, gen, bound, visit, caps, capped, leaves, pruned, transitions, max_depth, queue, cv, local_depth + 1);
+                run_item(c, gen, bound, bound2, visit, caps, capped, leaves, pruned, transitions, max_depth, queue, cv, local_depth + 1);
             }
         }
     }
@@ -207,7 +228,7 @@ where
                         return;
                     }
                     Some(prefix) => {
-                        run_item(prefix, &gen, bound, &visit, caps, &capped, &leaves, &pruned, &transitions, &max_depth, &queue, &cv, 0);
+                        run_item(prefix, &gen, bound, bound2, &visit, caps, &capped, &leaves, &pruned, &transitions, &max_depth, &queue, &cv, 0);
                         active.fetch_sub(1, Ordering::SeqCst);
                         cv.notify_all();
                     }
